@@ -17,7 +17,7 @@ import zlib  # noqa: E402
 from traits.api import (  # noqa: E402
     Any, Array, Bool, Bytes, CBool, CBytes, CComplex, CFloat, CInt, CStr, Callable, Complex, Either, Enum, Float,
     HasTraits, Instance, Int, Map, Module, PrefixList, PrefixMap, Range, Regex, Str, String, Supports, This, Title,
-    TraitError, Tuple, Type, Undefined, Union)
+    TraitError, Tuple, Type, Undefined, Union, ValidatedTuple)
 
 SCALE = 1000
 ADDR = re.compile(r"0x[0-9a-f]{6,}")
@@ -408,6 +408,9 @@ def trait(d, pool):
     if k == "DMap":
         return Map({pool.val(a): pool.val(b) for a, b in d[1]})
     if k == "DTuple":
+        if len(d) > 2 and d[2] == "Validated":      # ValidatedTuple with no / an always-true fvalidate
+            return ValidatedTuple(*[trait(x, pool) for x in d[1]],
+                                  fvalidate=None if d[3] == "none" else (lambda values: True))
         return Tuple(*[trait(x, pool) for x in d[1]])
     if k == "DInstance":
         if len(d) > 4 and d[4] == "clone":     # Instance(K, allow_none=not an)(allow_none=an): a trait type called with metadata
